@@ -72,11 +72,17 @@ def explore(prop, cases, outcome, max_samples=4):
         except Exception as e:  # harness bug or unexpected exception class from the real code
             impls.append({"harness_exc": f"{type(e).__name__}: {e}", "tb": traceback.format_exc()[-1500:]})
     lines = []
+    slots = []
     for i, (c, im) in enumerate(zip(cases, impls)):
         l = prop.line(c, im)
-        l["id"] = i
+        if l is None:       # oracle-only case: no model counterpart, judged on the real code's result alone
+            slots.append(None)
+            continue
+        l["id"] = len(lines)
+        slots.append(len(lines))
         lines.append(l)
-    models = leanrun.run_driver(lines)
+    driven = leanrun.run_driver(lines) if lines else []
+    models = [driven[s] if s is not None else {"out": None} for s in slots]
     for c, im, mo in zip(cases, impls, models):
         outcome.evaluations += 1
         if prop.nontrivial(c):
